@@ -102,7 +102,7 @@ func runC01(r *Run, stratum string) *Violation {
 		a.do()
 	}
 	if ps.viol == nil {
-		ps.drain(20, check)
+		ps.drain(20, check, func() bool { return ps.viol != nil || len(ps.biz) >= len(expected) })
 		r.Settle()
 		ps.absorb()
 		check()
